@@ -159,7 +159,7 @@ class Gen:
         out = self.prim("TPMI_SH_AUTH_SESSION", path + ".sessionHandle")[0]
         out += self.tpm2b("TPM2B_NONCE", path + ".nonce")
         al = [a for a in ATTRS if allow(a)]
-        a = al[self.ch.choose(len(al), "attrs:" + path)]
+        a = al[self.ch.choose(len(al), "attrs:" + path, al)]
         out += self.fixed("TPMA_SESSION", path + ".sessionAttributes", a)
         out += self.tpm2b("TPM2B_AUTH", path + ".hmac")
         return out, a
@@ -168,7 +168,7 @@ class Gen:
         self.emit(path, "TPMS_AUTH_RESPONSE", "...")
         out = self.tpm2b("TPM2B_NONCE", path + ".nonce")
         al = [a for a in ATTRS if allow(a)]
-        a = al[self.ch.choose(len(al), "attrs:" + path)]
+        a = al[self.ch.choose(len(al), "attrs:" + path, al)]
         out += self.fixed("TPMA_SESSION", path + ".sessionAttributes", a)
         out += self.tpm2b("TPM2B_AUTH", path + ".hmac")
         return out, a
